@@ -64,7 +64,7 @@ def main(tier, seed):
         encs = [(enc_prog(p), enc_text(i)) for p, i in progs]
         # classify with the model: does the unoptimised run end within the step cap?
         m_one = model_exec(["one %s %s 3000" % e for e in encs])
-        term = [not r.endswith("END cut") for r in m_one]
+        term = [not (r.endswith("END cut") or unjudged(r)) for r in m_one]
         # (i) optimiser output
         ops = []
         for (pe, _) in encs:
@@ -72,6 +72,8 @@ def main(tier, seed):
         oi = impl_lines(ops, timeout=900); om = model_lines(["m." + o for o in ops], timeout=900)
         stats = {"fully_pre_executed": 0, "partially": 0, "nothing_pre_executed": 0, "captured_output": 0, "shared_slot_used": 0, "enc_error_at_opt": 0}
         for o, a, m in zip(ops, oi, om):
+            if unjudged(a, m):
+                rep.count("skipped-resource-limit"); continue
             rep.count("optimiser-output")
             if a != m:
                 rep.violation("correspondence", {"what": "optimize() result differs from the model", "op": o, "impl": a[:1200], "model": m[:1200]})
@@ -92,6 +94,8 @@ def main(tier, seed):
         m2 = model_exec(["run2 %s %s 100000" % c for c in tcases])
         ends = {}
         for c, a0, a1, a2, b1, b2 in zip(tcases, l0, l1, l2, m1, m2):
+            if unjudged(a0, a1, a2, b1, b2):
+                rep.count("skipped-resource-limit"); continue
             rep.count("library-run-levels", 3)
             s0 = summarize(a0)
             ends[s0[2].split(" ")[0]] = ends.get(s0[2].split(" ")[0], 0) + 1
